@@ -146,6 +146,9 @@ func (tag *Tag) Write(w io.Writer) error {
 	return writeTag(w, tag, 0)
 }
 
+// 早于首个 Tag 不超过该值（毫秒）的包，时间戳按 0 输出
+const maxBackwardTimestamp = 10 * 60 * 1000
+
 func writeTag(w io.Writer, tag *Tag, timestampDelta uint32) error {
 	var tagHeader [TagHeaderSize + 1]byte // 为 stream id 多留一个高位字节
 	offset := 0
@@ -159,6 +162,10 @@ func writeTag(w io.Writer, tag *Tag, timestampDelta uint32) error {
 
 	// timestamp
 	timestamp := tag.Timestamp - timestampDelta
+	if back := int32(timestamp); back < 0 && back > -maxBackwardTimestamp {
+		// 略早于首个 Tag 的包（例如音视频交错时稍早的音频）：输出为 0，而不是回绕成巨大的时间戳
+		timestamp = 0
+	}
 	binary.BigEndian.PutUint32(tagHeader[offset:], (timestamp<<8)|(timestamp>>24))
 	offset += 4
 
